@@ -255,3 +255,29 @@ pub enum ConcurrencyError {
     #[error("CAS check failed, try reading most recent item before writing again.")]
     CasFailed,
 }
+
+#[cfg(mainline_verif)]
+impl PutQuery {
+    /// Verification hook: projection of the private state.
+    pub fn verif_snapshot(&self) -> crate::verif::PutSnap {
+        crate::verif::PutSnap {
+            target: self.target.to_string(),
+            kind: match self.request {
+                PutRequestSpecific::AnnouncePeer(_) => "announce_peer",
+                PutRequestSpecific::AnnounceSignedPeer(_) => "announce_signed_peer",
+                PutRequestSpecific::PutImmutable(_) => "put_immutable",
+                PutRequestSpecific::PutMutable(_) => "put_mutable",
+            }
+            .to_string(),
+            started: self.started(),
+            tids: self.inflight_requests.clone(),
+            stored_at: self.stored_at as u64,
+            errors: self
+                .errors
+                .iter()
+                .map(|(c, e)| (*c as u64, e.code))
+                .collect(),
+            extra_nodes: self.extra_nodes.len(),
+        }
+    }
+}
